@@ -430,6 +430,16 @@ fn reconstruct_historical_events(
                 },
             ));
         }
+        if !job.is_open() {
+            // The time when the job was closed is not stored;
+            // no submit was accepted after it, so we put it right after the last submit.
+            let closed_at = job
+                .submit_descs
+                .last()
+                .map(|submit| submit.submitted_at())
+                .unwrap_or(job.submission_date);
+            events.push(Event::at(closed_at, EventPayload::JobClose(job.job_id)));
+        }
 
         for (id, task) in &job.tasks {
             // Task start
